@@ -69,7 +69,7 @@ class Protocol:
 
         def switch_hook(ip, st, args, info):
             ph = args[1]
-            name = gcmodel.PHASES[ph[2]] if ph[0] == "adt" else "?"
+            name = gcmodel.phase_name(self.prog, ph)
             cur = self.m.snapshot(st)["phase"]
             sw = st.g.get("switches", ())
             if len(sw) < 12:
@@ -82,7 +82,7 @@ class Protocol:
         def enter_hook(ip, st, args, info):
             ph = args[1]
             if ph[0] == "adt" and ph[1] == OPT and ph[2] == 1:
-                name = gcmodel.PHASES[ph[3][0][2]]
+                name = gcmodel.phase_name(self.prog, ph[3][0])
                 st.g["switches"] = st.g.get("switches", ()) + ((self.m.snapshot(st)["phase"], name),)
                 st.event("switch", self.m.snapshot(st)["phase"], name)
             return NotImplemented
